@@ -40,6 +40,17 @@ fn so_path() -> PathBuf {
         .map(|p| p.join("interpose/fsio.so")).expect("so path")
 }
 
+pub fn copy_dir(from: &Path, to: &Path) {
+    std::fs::create_dir_all(to).expect("mkdir");
+    if let Ok(rd) = std::fs::read_dir(from) {
+        for e in rd.flatten() {
+            let p = e.path();
+            let t = to.join(e.file_name());
+            if p.is_dir() { copy_dir(&p, &t); } else { std::fs::copy(&p, &t).expect("copy"); }
+        }
+    }
+}
+
 pub fn is_hex_lower(s: &str) -> bool {
     s.bytes().all(|b| b.is_ascii_digit() || (b'a'..=b'f').contains(&b))
 }
@@ -326,6 +337,44 @@ impl Sess {
                 std::fs::create_dir_all(&d).expect("plant dir");
                 std::fs::write(d.join(&h[4..]), &c).expect("plant file");
                 "ok".to_string()
+            }
+            ["snapshot"] => {
+                let b = self.work.join("backup");
+                let _ = std::fs::remove_dir_all(&b);
+                copy_dir(&self.dir, &b);
+                "ok".to_string()
+            }
+            ["restore"] => {
+                if let Some(mut w) = self.worker.take() { let _ = writeln!(w.stdin, "exit"); let _ = w.child.wait(); }
+                let b = self.work.join("backup");
+                let _ = std::fs::remove_dir_all(&self.dir);
+                copy_dir(&b, &self.dir);
+                "ok".to_string()
+            }
+            ["damage", f, off, x] => {
+                let name = match f.strip_prefix("seg:") { Some(id) => format!("{id}_index.wal"), None => f.to_string() };
+                let p = self.dir.join(name);
+                match std::fs::read(&p) {
+                    Ok(mut b) => { let o: usize = off.parse().unwrap(); if o < b.len() { b[o] ^= x.parse::<u8>().unwrap(); } std::fs::write(&p, b).expect("damage"); "ok".to_string() }
+                    Err(_) => "nofile".to_string(),
+                }
+            }
+            ["truncseg", id, len] => {
+                let idn: u64 = id.parse().unwrap();
+                let p = self.dir.join(format!("{idn}_index.wal"));
+                match std::fs::OpenOptions::new().write(true).open(&p) {
+                    Ok(f) => {
+                        f.set_len(len.parse().unwrap()).expect("truncate");
+                        if let Ok(rd) = std::fs::read_dir(&self.dir) {
+                            for e in rd.flatten() {
+                                let n = e.file_name().to_string_lossy().into_owned();
+                                if let Some(j) = n.strip_suffix("_index.wal").and_then(|s| s.parse::<u64>().ok()) { if j > idn { let _ = std::fs::remove_file(e.path()); } }
+                            }
+                        }
+                        "ok".to_string()
+                    }
+                    Err(_) => "nofile".to_string(),
+                }
             }
             ["tracedrop"] => { self.pending_trace.clear(); let _ = self.take_trace(); "ok".to_string() }
             // change the configuration used by later opens (same directory, new worker session)
